@@ -272,18 +272,6 @@ Proof.
   assert (Edit : ser_edit_root t v = Ok x -> out_ok x = true /\ exists es, x = VTab es)
     by (apply edit_root_out_ok; assumption).
   destruct t; try (apply Edit; destruct v; exact H).
-  - (* Datetime at the root *)
-    destruct v; try (apply Edit; exact H).
-    simpl in H. injection H as <-. split; [|eauto].
-    cbn [out_ok map fst snd nodup_bytes mem_bytes forallb negb andb]. rewrite (AA_valid _ (display_datetime_AA d)).
-    vm_compute. reflexivity.
-  - (* struct at the root *)
-    destruct v; try (apply Edit; exact H).
-    rewrite ht_struct in Hty. apply andb_true_iff in Hty as [Hty Hvs]. apply andb_true_iff in Hty as [Hpriv Hnd].
-    simpl in H. apply rmap_ok in H as (ps & Hps & ->). split; [|unfold table_of; eauto].
-    rewrite utf8_ty_struct in Ht.
-    assert (IH : Forall (fun ft : bytes * ty => OK (snd ft)) fs) by (apply Forall_forall; intros ft _; apply ser_out_ok).
-    apply (ok_struct_fields fs IH vs ps Hnd Hvs Ht Hu Hps).
   - (* enum at the root *)
     destruct v as [| | | | | | | | | | | | | |i p]; try (apply Edit; exact H).
     simpl in H.
@@ -433,7 +421,7 @@ Proof.
     cbn [variant_depth]. apply le_n_S. apply (dp_table fs vs ps H Hps).
 Qed.
 
-(* the roots: toml's serializer writes a root Datetime as a one-entry table *)
+(* the roots *)
 Lemma ty_depth_struct n fs : ty_depth (TStruct n fs) = S (fold_right (fun ft acc => Nat.max (ty_depth (snd ft)) acc) 0 fs).
 Proof. reflexivity. Qed.
 
@@ -443,10 +431,6 @@ Proof.
   assert (Edit : ser_edit_root t v = Ok x -> tv_depth x <= Nat.max 1 (ty_depth t)).
   { intro H0. apply edit_root_is_table in H0 as (es & -> & H0). pose proof (ser_depth_le t v _ H0). lia. }
   destruct t; try (apply Edit; destruct v; exact H).
-  - destruct v; try (apply Edit; exact H). simpl in H. injection H as <-. cbn. lia.
-  - destruct v; try (apply Edit; exact H). simpl in H. apply rmap_ok in H as (ps & Hps & ->).
-    assert (IH : Forall (fun ft : bytes * ty => DP (snd ft)) fs) by (apply Forall_forall; intros ft _; apply ser_depth_le).
-    pose proof (dp_table fs vs ps IH Hps) as G. unfold table_of in G. rewrite ty_depth_struct. lia.
   - destruct v as [| | | | | | | | | | | | | |i p]; try (apply Edit; exact H).
     simpl in H.
     match type of H with pick ?f ?d vs i = _ => destruct (pick_cases f d vs i) as [([vn var] & Hn & E)|[_ E]]; rewrite E in H end;
